@@ -57,6 +57,12 @@ func (k Keeper) SignedBlocksWindow(ctx sdk.Ctx) (res int64) {
 	return
 }
 
+// the MinSignedPerWindow parameter as stored: the required FRACTION of signed blocks per window
+func (k Keeper) minSignedPerWindowFraction(ctx sdk.Ctx) (res sdk.Dec) {
+	k.Paramstore.Get(ctx, types.KeyMinSignedPerWindow, &res)
+	return
+}
+
 // Downtime slashing threshold
 func (k Keeper) MinSignedPerWindow(ctx sdk.Ctx) (res int64) {
 	var minSignedPerWindow sdk.Dec
@@ -96,7 +102,7 @@ func (k Keeper) GetParams(ctx sdk.Ctx) types.Params {
 		ProposerRewardPercentage: k.ProposerRewardPercentage(ctx),
 		MaxEvidenceAge:           k.MaxEvidenceAge(ctx),
 		SignedBlocksWindow:       k.SignedBlocksWindow(ctx),
-		MinSignedPerWindow:       sdk.NewDec(k.MinSignedPerWindow(ctx)),
+		MinSignedPerWindow:       k.minSignedPerWindowFraction(ctx),
 		DowntimeJailDuration:     k.DowntimeJailDuration(ctx),
 		SlashFractionDoubleSign:  k.SlashFractionDoubleSign(ctx),
 		SlashFractionDowntime:    k.SlashFractionDowntime(ctx),
